@@ -16,8 +16,16 @@ LIVE_ASSUME = ["the exchange double is a model of Betfair's documented request s
                "Betdaq execution is outside C12 by the property's own text"]
 
 
+def is_live_replay(path):
+    if not path:
+        return False
+    import json
+    with open(path) as f:
+        return "live_scenario" in json.load(f)
+
+
 def livecheck_designs(prop):
-    return [{"module": "MC_LiveRun", "constants": {"MaxSteps": "14"}, "invariants": ["Inv_NoneStranded", "Inv_ConvergedAtQuiescence", "Inv_RetriesBounded"], "must_reach": ["Reach_CompleteByStream"]}]
+    return [{"module": "MC_LiveRun", "constants": {"MaxSteps": "14"}, "invariants": ["Inv_NoneStranded", "Inv_ConvergedAtQuiescence", "Inv_RetriesBounded"], "must_reach": ["Reach_CompleteByStream"], "view": "View"}]
 
 
 def main():
@@ -36,19 +44,22 @@ def main():
             rc = run_check(tier, seed)
         elif a.prop in props.SIM and a.prop != "C12":
             from checks.simcheck import run_check
-            rc = run_check(a.prop, props.SIM[a.prop], tier, seed, replay=a.replay)
-            if rc != 2 and a.prop in ("C03", "C10", "C15", "C20") and not a.replay:
+            live_replay = is_live_replay(a.replay)
+            rc = 0 if live_replay else run_check(a.prop, props.SIM[a.prop], tier, seed, replay=a.replay)
+            if rc != 2 and a.prop in ("C03", "C10", "C15", "C20") and (live_replay or not a.replay):
                 # live half: the same formulas on traces of the real Flumine against the exchange double
                 import json
                 from checks import livecheck
-                out = livecheck.run_check(a.prop, tier, seed, designs=[])
+                out = livecheck.run_check(a.prop, tier, seed, designs=[], replay=a.replay if live_replay else None)
                 if isinstance(out, int):
                     rc = out
+                elif live_replay:
+                    rc = out["rc"]
                 else:
                     path = os.path.join(ROOT, "evidence", "%s.json" % a.prop)
                     with open(path) as f:
                         ev = json.load(f)
-                    ev["coverage"]["live"] = {"traces": len(out["traces"]), "steps": out["res"]["states"], "activity": out["activity"],
+                    ev["coverage"]["live"] = {"model_behaviours_replayed_into_impl": out.get("e2", {}), "traces": len(out["traces"]), "steps": out["res"]["states"], "activity": out["activity"],
                                               "violations_unexplained": len(out["unexplained"]), "known_findings_hit": {k: len(v) for k, v in out["explained"].items()}}
                     ev["coverage"]["traces_validated_against_impl"] += len(out["traces"])
                     ev["coverage"]["states"] += out["res"]["states"]
@@ -62,16 +73,20 @@ def main():
         elif a.prop in ("C11", "C12"):
             from checks import livecheck
             rc_sim, sim_cov = 0, None
-            if a.prop == "C12":     # the simulated execution half
+            live_replay = is_live_replay(a.replay)
+            if a.prop == "C12" and not live_replay:     # the simulated execution half
                 import json
                 from checks.simcheck import run_check as sim_run
-                rc_sim = sim_run("C12", props.SIM["C12"], tier, seed, keep_evidence=True)
+                rc_sim = sim_run("C12", props.SIM["C12"], tier, seed, replay=a.replay, keep_evidence=True)
                 if rc_sim != 2:
                     with open(os.path.join(ROOT, "evidence", "C12.json")) as f:
                         sim_cov = json.load(f)["coverage"]
-            out = livecheck.run_check(a.prop, tier, seed, designs=livecheck_designs(a.prop))
-            rc = out if isinstance(out, int) else livecheck.finish_live(a.prop, tier, seed, out, LIVE_RULE[a.prop], LIVE_ASSUME, sim_cov=sim_cov)
-            rc = max(rc, rc_sim)
+            if a.replay and not live_replay:
+                rc = rc_sim
+            else:
+                out = livecheck.run_check(a.prop, tier, seed, designs=[] if live_replay else livecheck_designs(a.prop), replay=a.replay if live_replay else None)
+                rc = out if isinstance(out, int) else (out["rc"] if live_replay else livecheck.finish_live(a.prop, tier, seed, out, LIVE_RULE[a.prop], LIVE_ASSUME, sim_cov=sim_cov))
+                rc = max(rc, rc_sim)
         elif a.prop == "C19":
             from checks.refcheck import run_check
             rc = run_check(tier, seed)
